@@ -80,7 +80,7 @@ func TestFeedCounters(t *testing.T) {
 func TestReaderCheck(t *testing.T) {
 	m := NewModel(PRF{Key: 9})
 	e1 := m.NewEpoch("A")
-	f1 := NewFeed(m.PRF, e1.ID, Aof, 100)
+	f1 := NewFeed(m.PRF, e1.AofID(), Aof, 100)
 	e1.BeginAof(100, f1)
 	f1.Push(300)
 	buf := make([]byte, 300)
@@ -89,7 +89,7 @@ func TestReaderCheck(t *testing.T) {
 	if e2.ID == e1.ID {
 		t.Fatal("epoch not advanced")
 	}
-	f2 := NewFeed(m.PRF, e2.ID, Aof, 100)
+	f2 := NewFeed(m.PRF, e2.AofID(), Aof, 100)
 	e2.BeginAof(100, f2)
 	f2.Push(300)
 	buf2 := make([]byte, 300)
@@ -104,7 +104,7 @@ func TestReaderCheck(t *testing.T) {
 	}
 	// continues into the other epoch's bytes at a later offset: foreign epoch
 	mm := rc.Verify(buf2[200:260])
-	if mm == nil || mm.Kind != "foreign-epoch" || mm.Origin.Epoch != e2.ID || mm.Origin.Off != 300 {
+	if mm == nil || mm.Kind != "foreign-history" || mm.Origin.Epoch != e2.ID || mm.Origin.Off != 300 {
 		t.Fatalf("%+v", mm)
 	}
 	// wrong offset inside the same epoch
@@ -116,7 +116,7 @@ func TestReaderCheck(t *testing.T) {
 	// bytes beyond what was written
 	rc = m.NewReaderCheck(e1.ID, e1.ID, Aof, 390)
 	ahead := make([]byte, 30)
-	m.PRF.Fill(ahead, e1.ID, Aof, 390)
+	m.PRF.Fill(ahead, e1.AofID(), Aof, 390)
 	mm = rc.Verify(ahead)
 	if mm == nil || mm.Kind != "unwritten" || mm.At != 400 {
 		t.Fatalf("%+v", mm)
@@ -126,13 +126,49 @@ func TestReaderCheck(t *testing.T) {
 	}
 }
 
+func TestSameSourceSameBytes(t *testing.T) {
+	m := NewModel(PRF{Key: 5})
+	e1 := m.NewEpoch("A")
+	f1 := NewFeed(m.PRF, e1.AofID(), Aof, 100)
+	e1.BeginAof(100, f1)
+	f1.Push(50)
+	b1 := make([]byte, 50)
+	io.ReadFull(f1, b1)
+	e2 := m.NewEpoch("A") // the cache was reset, the same source is followed again from 120
+	f2 := NewFeed(m.PRF, e2.AofID(), Aof, 120)
+	e2.BeginAof(120, f2)
+	f2.Push(100)
+	b2 := make([]byte, 100)
+	io.ReadFull(f2, b2)
+	if string(b1[20:50]) != string(b2[:30]) {
+		t.Fatal("the same source must produce the same bytes at the same offsets")
+	}
+	// a reader of the first epoch that goes on into what only the second epoch stored still
+	// delivers the source bytes at its offsets
+	rc := m.NewReaderCheck(e1.ID, e1.ID, Aof, 130)
+	if mm := rc.Verify(b2[10:90]); mm != nil {
+		t.Fatal(mm)
+	}
+	// ... but not beyond what anybody stored
+	rc = m.NewReaderCheck(e1.ID, e1.ID, Aof, 210)
+	ahead := make([]byte, 20)
+	m.PRF.Fill(ahead, e1.AofID(), Aof, 210)
+	if mm := rc.Verify(ahead); mm == nil || mm.Kind != "unwritten" || mm.At != 220 {
+		t.Fatalf("%+v", mm)
+	}
+	e3 := m.NewEpoch("B")
+	if e3.AofID() == e1.AofID() {
+		t.Fatal("another source must have another id")
+	}
+}
+
 func TestEpochReuseAndBounds(t *testing.T) {
 	m := NewModel(PRF{Key: 2})
 	e := m.NewEpoch("A")
 	if e.ID != 0 || m.NewEpoch("B").ID != 0 {
 		t.Fatal("empty epoch must be reused")
 	}
-	f := NewFeed(m.PRF, 0, Rdb, 0)
+	f := NewFeed(m.PRF, e.RdbID(500), Rdb, 0)
 	e.BeginRdb(500, 20, f)
 	f.Push(20)
 	b := make([]byte, 20)
